@@ -11,6 +11,7 @@
 -/
 import Koreo.Lemmas.CompareComplete
 import Koreo.Lemmas.CompareTotal
+import Koreo.Lemmas.CompareLaShape
 import Koreo.Props.C04
 import Koreo.Gen.Compare45
 
@@ -96,31 +97,41 @@ theorem legacy_keyed_empty_matches_falsy :
 
 /-! ## the correction -/
 
-/-- patch: exactly one PATCH whose body is the payload of the target, Retry with the patch delay -/
+/-- patch, owner reference in place: exactly one PATCH whose body is the payload of the target, Retry
+    with the patch delay -/
 theorem drift_action_patch (c : Cfg) (t live la body d : JVal)
     (hla : extractLastApplied c.codec live = some la) (hv : validateMatch t live la false = .differ)
-    (hp : c.policy = .patch d) (ho : c.ownerFix = .none) (hf : ownerRefsFree t = true)
+    (hp : c.policy = .patch d) (ho : ownerFixOf c live = some .none) (hf : ownerRefsFree t = true)
     (hb : prepareForApi c.codec t = some body) :
     pass c t (some live) = [⟨some (mergePatch live body), .retry d, [.patch body]⟩] := by
-  simp [pass, passPresent, hla, hv, correct, hp, ho, hb, dropOwnerRefs, hf]
+  simp [pass, passPresent, ho, hla, hv, correct, hp, hb, dropOwnerRefs, hf]
 
-/-- recreate: exactly one DELETE, Retry with the recreate delay -/
-theorem drift_action_recreate (c : Cfg) (t live la d : JVal)
+/-- patch, parent's reference missing: the one PATCH carries the payload of the target *with* the live
+    references plus the parent's (`C04.owner_fix_keeps_co_owners`) -/
+theorem drift_action_patch_owner (c : Cfg) (t live la r x body d : JVal)
     (hla : extractLastApplied c.codec live = some la) (hv : validateMatch t live la false = .differ)
-    (hp : c.policy = .recreate d) :
+    (hp : c.policy = .patch d) (ho : ownerFixOf c live = some (.refs r))
+    (hx : setOwnerRefs r t = some x) (hb : prepareForApi c.codec x = some body) :
+    pass c t (some live) = [⟨some (mergePatch live body), .retry d, [.patch body]⟩] := by
+  simp [pass, passPresent, ho, hla, hv, correct, hp, hx, hb]
+
+/-- recreate: exactly one DELETE, Retry with the recreate delay (whatever the owner check decided) -/
+theorem drift_action_recreate (c : Cfg) (t live la d : JVal) (fix : OwnerFix)
+    (hla : extractLastApplied c.codec live = some la) (hv : validateMatch t live la false = .differ)
+    (hp : c.policy = .recreate d) (ho : ownerFixOf c live = some fix) :
     pass c t (some live) = [⟨none, .retry d, [.delete]⟩] := by
-  simp [pass, passPresent, hla, hv, correct, hp]
+  simp [pass, passPresent, ho, hla, hv, correct, hp]
 
 /-- never: no request at all; the live object is handed on -/
-theorem drift_action_never (c : Cfg) (t live la : JVal)
+theorem drift_action_never (c : Cfg) (t live la : JVal) (fix : OwnerFix)
     (hla : extractLastApplied c.codec live = some la) (hv : validateMatch t live la false = .differ)
-    (hp : c.policy = .never) :
+    (hp : c.policy = .never) (ho : ownerFixOf c live = some fix) :
     pass c t (some live) = [⟨some live, .okLive live, []⟩] := by
-  simp [pass, passPresent, hla, hv, correct, hp, unchanged]
+  simp [pass, passPresent, ho, hla, hv, correct, hp, unchanged]
 
 /-- the three together, from drift itself: every drifted live object gets exactly the policy's action -/
 theorem drift_action (c : Cfg) (t live la : JVal) (h : C04.TargetOk t) (hl : LaShaped t la)
-    (hla : extractLastApplied c.codec live = some la) (ho : c.ownerFix = .none)
+    (hla : extractLastApplied c.codec live = some la) (ho : ownerFixOf c live = some .none)
     (hd : ¬ MeetsExcl t live) :
     match c.policy with
     | .patch d => ∃ body, prepareForApi c.codec t = some body ∧
@@ -132,14 +143,45 @@ theorem drift_action (c : Cfg) (t live la : JVal) (h : C04.TargetOk t) (hl : LaS
   | patch d =>
     obtain ⟨body, hb, _⟩ := payload_facts c.codec t h.wf h.nodup h.annFree
     exact ⟨body, hb, drift_action_patch c t live la body d hla hv hp ho h.ownerFree hb⟩
-  | recreate d => exact drift_action_recreate c t live la d hla hv hp
-  | never => exact drift_action_never c t live la hla hv hp
+  | recreate d => exact drift_action_recreate c t live la d _ hla hv hp ho
+  | never => exact drift_action_never c t live la _ hla hv hp ho
 
-/-- after the patch the object meets the target again (and the next pass is quiet: C04.no_update_loop) -/
+/-- the same for an object that still carries the annotation koreo wrote for this target — the usual
+    case; no hypothesis about the annotation's shape is left: `strip t` is always well shaped -/
+theorem drift_action_own_annotation (c : Cfg) (t live : JVal) (h : C04.TargetOk t)
+    (hla : extractLastApplied c.codec live = some (strip t)) (ho : ownerFixOf c live = some .none)
+    (hd : ¬ MeetsExcl t live) :
+    match c.policy with
+    | .patch d => ∃ body, prepareForApi c.codec t = some body ∧
+        pass c t (some live) = [⟨some (mergePatch live body), .retry d, [.patch body]⟩]
+    | .recreate d => pass c t (some live) = [⟨none, .retry d, [.delete]⟩]
+    | .never => pass c t (some live) = [⟨some live, .okLive live, []⟩] :=
+  drift_action c t live (strip t) h (laOk_strip_self t h.wf h.nodup) hla ho hd
+
+/-- drifted *and* the parent's reference missing, update policy patch: one PATCH that restores the target
+    and writes the live references plus the parent's; Retry -/
+theorem drift_action_owner_missing (c : Cfg) (t live la r d : JVal) (rs : List JVal) (h : C04.TargetOk t)
+    (hl : LaShaped t la) (hla : extractLastApplied c.codec live = some la)
+    (ho : ownerFixOf c live = some (.refs r)) (hr : r = .arr rs) (hrn : noDupB r = true)
+    (hp : c.policy = .patch d) (hd : ¬ MeetsExcl t live) :
+    ∃ x body, setOwnerRefs r t = some x ∧ prepareForApi c.codec x = some body ∧
+      pass c t (some live) = [⟨some (mergePatch live body), .retry d, [.patch body]⟩] ∧
+      (c.codec.reads (strip x) → Meets t (mergePatch live body) (strip x) ∧
+        liveRefs (mergePatch live body) = some (.arr (stripL rs))) := by
+  subst hr
+  have hv := drift_reported t live la h.wf hl hd
+  obtain ⟨x, body, hx, hb, hall⟩ := C04.owner_fix_reaches_target c.codec t rs h hrn
+  exact ⟨x, body, hx, hb, drift_action_patch_owner c t live la _ x body d hla hv hp ho hx hb,
+    fun hc => ⟨(hall hc live).1, (hall hc live).2.2⟩⟩
+
+/-- after the patch the object meets the target again, its annotation reads back as the payload, and
+    that payload is a well-shaped last-applied tree (the next pass is quiet: C04.no_update_loop) -/
 theorem after_patch_meets (c : Codec) (t : JVal) (h : C04.TargetOk t) (hc : c.reads (strip t)) :
-    ∃ body, prepareForApi c t = some body ∧ ∀ live, Meets t (mergePatch live body) (strip t) := by
-  obtain ⟨body, hb, hall⟩ := C04.patch_reaches_target c t h hc
-  exact ⟨body, hb, fun live => (hall live).1⟩
+    ∃ body, prepareForApi c t = some body ∧ LaShaped t (strip t) ∧
+      ∀ live, Meets t (mergePatch live body) (strip t) ∧
+        extractLastApplied c (mergePatch live body) = some (strip t) := by
+  obtain ⟨body, hb, hl, hall⟩ := C04.patch_reaches_target c t h hc
+  exact ⟨body, hb, hl, hall⟩
 
 /-- what meets in C04's sense has no drift in C05's sense (the two relations are nested) -/
 theorem meets_implies_meetsExcl (t live la : JVal) (hw : DirectivesWF t) (hm : Meets t live la) :
@@ -176,7 +218,8 @@ def exDrift : JVal := .obj [
   ("metadata", .obj [("labels", .obj [("app", .str "web")])])]
 
 example : ¬ MeetsExcl C04.exTarget exDrift := by decide
-example : LaShaped C04.exTarget (strip C04.exTarget) := by unfold LaShaped; decide
+/-- what koreo wrote is well shaped: now a theorem (`laOk_strip_self`), shown here on the example -/
+example : LaShaped C04.exTarget (strip C04.exTarget) := laOk_strip_self _ (by decide) (by decide)
 example : validateMatch C04.exTarget exDrift (strip C04.exTarget) false = .differ := by decide
 /-- a retyped leaf (`false` ↦ `0`) is drift too -/
 example : validateMatch (.obj [("on", .bool false)]) (.obj [("on", .int 0)]) .null false = .differ := by decide
@@ -191,5 +234,38 @@ example : validateMatch (.obj [(compareAsMap, .obj [("m", .arr [.str "name"])]),
 /-- and extras in a keyed list are not drift -/
 example : validateMatch (.obj [(compareAsMap, .obj [("m", .arr [.str "name"])]), ("m", .arr [])])
     (.obj [("m", .arr [.obj [("name", .str "x")]])]) .null false = .ok := by decide
+
+/-! ## the two comparator corners left outside the stated domain, stated precisely
+
+  (1) A keyed-list member whose key (`"$"`-joined field values) equals `ownerReferences` or a directive
+      name.  `_validate_dict_match` runs on the dictionary `{key: member}`; it removes the directive names
+      from its key set and skips `ownerReferences`, so such a member is **never compared** — that is
+      what the model does too (`vmK`: `skippedKey key`).  `DirectivesWF` excludes these keys
+      (`keysDistinct`), and without that exclusion completeness fails, as the first example shows.
+      (For a directive-named key the code in addition *reads the member as that directive* for its
+      sibling members — `{"name": "x-koreo-compare-as-map", "v": 1}` makes it raise `TypeError` while
+      iterating `1`; the model does not follow it there: harness probe `quirk:member-named-as-directive`.)
+  (2) An explicit `null` in the target **below** a key listed in `x-koreo-compare-last-applied`.  There the
+      code calls `validate_match(target[k], last_applied[k], last_applied[k])` — actual value and
+      last-applied value are the *same object* — and `_validate_dict_match`'s
+      `last_applied_value[target_key] = None` for a missing key therefore also adds the key to the
+      "actual" side: a key the last-applied tree does not have compares as `null` and so *matches* a
+      target `null`.  The model compares without that aliasing and answers "differences" (second
+      example); both C04 (no explicit nulls) and C05 (last-applied-directed keys are excluded) leave the
+      corner out, and the generators avoid it (`gen_rf45.denull_under_la`); harness probe
+      `quirk:null-below-last-applied` records the code's answer (`ok`) next to the model's (`differ`). -/
+
+/-- (1): the member keyed `ownerReferences` differs in the live object, yet the comparison matches -/
+example :
+    let t : JVal := .obj [(compareAsMap, .obj [("m", .arr [.str "name"])]),
+      ("m", .arr [.obj [("name", .str "ownerReferences"), ("v", .int 1)], .obj [("name", .str "b")]])]
+    let live : JVal := .obj [("m", .arr [.obj [("name", .str "ownerReferences"), ("v", .int 2)], .obj [("name", .str "b")]])]
+    validateMatch t live .null false = .ok ∧ meetsB .excl t live .null = false ∧ wfB t = false := by decide
+
+/-- (2): what the model answers where the code's aliasing makes a missing key read as `null` -/
+example :
+    let t : JVal := .obj [(compareLastApplied, .arr [.str "d"]), ("d", .obj [("e", .null), ("f", .int 1)])]
+    let la : JVal := .obj [("d", .obj [("f", .int 1)])]
+    validateMatch t (.obj []) la false = .differ ∧ noNullsB t = false := by decide
 
 end Koreo.C05
